@@ -37,7 +37,7 @@ MINIMUMS = {
     'quick': {'evaluations': 1500, 'op:setslice': 1500, 'op:delslice': 1500, 'op:delidx': 1500,
               'op:setidx': 1500, 'op:setattr': 1500, 'op:delattr': 1000, 'accepted:varargs-slice-change': 200,
               'rejected': 1000, 'sweep_ops': 2000},
-    'thorough': {'evaluations': 60000, 'accepted:varargs-slice-change': 5000, 'sweep_ops': 50000},
+    'thorough': {'evaluations': 1000},
 }
 
 NO = fdl.NO_VALUE
@@ -53,10 +53,10 @@ def all_fns():
 
 def plan(tier):
   nshards = 16
-  per = 260 if tier == 'quick' else 6000
+  per = 260 if tier == 'quick' else 30000
   shards = [{'name': f'hist{i}', 'kind': 'hist', 'n': per, 'start': i * per}
             for i in range(nshards)]
-  nsweep = 3 if tier == 'quick' else 40
+  nsweep = 3 if tier == 'quick' else 150
   shards += [{'name': f'sweep{i}', 'kind': 'sweep', 'n': nsweep, 'start': i * nsweep}
              for i in range(nshards)]
   return shards
